@@ -44,13 +44,14 @@ fn addr_of_ref(e: &Event) -> usize {
     e as *const Event as *const u8 as usize
 }
 
-fn check_tracked(rep: &mut Report, store: &Store, tracked: &[Tracked], growths: u64, ctx: &serde_json::Value) -> bool {
-    for t in tracked.iter() {
+fn check_tracked(rep: &mut Report, store: &Store, tracked: &mut [Tracked], growths: u64, ctx: &serde_json::Value) -> bool {
+    let mut all_stable = true;
+    for t in tracked.iter_mut() {
         rep.count("reference_checks");
         let fresh = match catch(|| store.get_event_by_offset(t.offset).map(|e| (addr_of_ref(e), e.as_bytes().to_vec()))) {
             Ok(Ok(x)) => x,
             Ok(Err(e)) => {
-                rep.finding("reference-target-unreadable", &format!("offset {} no longer readable: {e}", t.offset), ctx.clone());
+                rep.finding("reference-target-unreadable", &format!("offset {} (reference taken {}) is no longer readable: {e}", t.offset, t.how), ctx.clone());
                 return false;
             }
             Err(p) => {
@@ -58,7 +59,24 @@ fn check_tracked(rep: &mut Report, store: &Store, tracked: &[Tracked], growths: 
                 return false;
             }
         };
+        // the bytes the reference denotes (read through the FRESH reference, never the stale one)
+        if fresh.1 != t.copy {
+            rep.finding(
+                if fresh.0 == t.addr { "bytes-changed-at-stable-address" } else { "bytes-changed" },
+                &format!(
+                    "the event at offset {} (reference taken {}) no longer has the bytes it had: {} of {} bytes differ (first at {:?}); growth steps since the reference was taken: {}",
+                    t.offset, t.how,
+                    fresh.1.iter().zip(t.copy.iter()).filter(|(a, b)| a != b).count() + fresh.1.len().abs_diff(t.copy.len()),
+                    t.copy.len(),
+                    fresh.1.iter().zip(t.copy.iter()).position(|(a, b)| a != b),
+                    growths - t.growths_at_take
+                ),
+                ctx.clone(),
+            );
+            return false;
+        }
         if fresh.0 != t.addr {
+            all_stable = false;
             let maps = maps_lookup(t.addr, t.len);
             let class = maps.split('(').next().unwrap_or("").to_string();
             rep.count(&format!("stale_reference_now:{class}"));
@@ -78,14 +96,13 @@ fn check_tracked(rep: &mut Report, store: &Store, tracked: &[Tracked], growths: 
                     ctx.clone(),
                 );
             }
-            return false;
-        }
-        if fresh.1 != t.copy {
-            rep.finding("bytes-changed-at-stable-address", &format!("offset {} (taken {})", t.offset, t.how), ctx.clone());
-            return false;
+            // keep watching this offset from its new address, so that content changes and further
+            // moves are still seen
+            t.addr = fresh.0;
+            t.growths_at_take = growths;
         }
     }
-    true
+    all_stable
 }
 
 pub fn run(args: &Args) -> Report {
@@ -159,9 +176,11 @@ pub fn run(args: &Args) -> Report {
                 last_len = len_now;
             }
             // all references taken so far must still be where the live mapping has their offsets
-            if !check_tracked(&mut rep, &store, &tracked, growths, &ctx) {
+            if !check_tracked(&mut rep, &store, &mut tracked, growths, &ctx) {
                 ok = false;
-                break;
+                if rep.has_finding("bytes-changed") || rep.has_finding("bytes-changed-at-stable-address") || rep.has_finding("reference-target-unreadable") {
+                    break;
+                }
             }
             // take new references (three ways), recording address, length and a byte copy
             if k % 4 == 0 && tracked.len() < 40 {
